@@ -10,6 +10,10 @@ pub const LOOPV: [&str; 6] = ["I", "J", "K", "L", "M", "N"];
 pub const WHILEV: [&str; 4] = ["W1", "W2", "W3", "W4"];
 pub const FNS: [&str; 3] = ["FNA", "FNB", "FNC"];
 pub const PARAMS: [&str; 3] = ["X", "Y", "A"];
+/// Marker variable of the stack-shape monitor (never used by generated code itself).
+pub const MARKER: &str = "Z9";
+/// Pass counter of looped programs.
+pub const PASSES: &str = "Z8";
 
 #[derive(Clone, Debug, PartialEq)]
 pub enum E {
@@ -394,18 +398,47 @@ pub fn generate(rng: &mut Rng, o: Opts) -> Prog {
         }
         g.nfn = nf;
     }
+    // layout: main then subroutines (main must end in END), or `GOTO main`, subroutines, main --
+    // then the main part is the end of the program and may fall off it in several ways
+    let subs_first = g.rng.chance(2, 5);
+    let mut main: Vec<Line> = vec![];
+    let mut subs: Vec<Line> = vec![];
     let n = g.rng.range(2, 7) as usize;
-    g.block(&mut lines, 2, n, &[], false, 0);
+    g.block(&mut main, 2, n, &[], false, 0);
     let l = g.label();
-    lines.push(Line { label: l, sts: vec![g.print(), St::End] });
+    let tail = if subs_first { g.rng.usize(6) } else { 0 };
+    match tail {
+        0 => main.push(Line { label: l, sts: vec![g.print(), St::End] }),
+        1 => main.push(Line { label: l, sts: vec![g.print()] }),
+        2 => main.push(Line { label: l, sts: vec![St::If(g.cond(&[]), vec![St::End], None)] }),
+        3 => main.push(Line { label: l, sts: vec![St::If(g.cond(&[]), vec![g.print()], Some(vec![St::End]))] }),
+        4 => main.push(Line { label: l, sts: vec![g.print(), St::If(g.cond(&[]), vec![St::End], Some(vec![g.print()]))] }),
+        _ => {
+            if g.o.stop {
+                main.push(Line { label: l, sts: vec![St::If(g.cond(&[]), vec![St::Stop], None)] })
+            } else {
+                main.push(Line { label: l, sts: vec![g.simple()] })
+            }
+        }
+    }
     for k in 0..nsubs {
         let lbl = g.sub_labels[k];
-        lines.push(Line { label: lbl, sts: vec![g.simple()] });
+        subs.push(Line { label: lbl, sts: vec![g.simple()] });
         let n = g.rng.range(1, 3) as usize;
         g.budget = g.budget.max(3);
-        g.block(&mut lines, 1, n, &[], true, k + 1);
+        g.block(&mut subs, 1, n, &[], true, k + 1);
         let l = g.label();
-        lines.push(Line { label: l, sts: vec![St::Return] });
+        subs.push(Line { label: l, sts: vec![St::Return] });
+    }
+    if subs_first {
+        let main_l = g.label();
+        lines.push(Line { label: g.label(), sts: vec![St::Goto(main_l)] });
+        lines.append(&mut subs);
+        lines.push(Line { label: main_l, sts: vec![St::Rem(String::new(), false)] });
+        lines.append(&mut main);
+    } else {
+        lines.append(&mut main);
+        lines.append(&mut subs);
     }
     let mut p = Prog { lines, nums: BTreeMap::new() };
     let start = g.rng.range(1, 30) as u16;
@@ -423,6 +456,36 @@ pub fn generate(rng: &mut Rng, o: Opts) -> Prog {
         }
     }
     p
+}
+
+/// Turns a generated program into a looped, marked one for the stack-shape monitor (C18):
+/// `Z9=Z9+1` markers at the start of random lines, a head line (RESTORE) in front, and the final
+/// END replaced by `Z8=Z8+1:IF Z8<passes THEN GOTO head ELSE END`. Returns false when the program
+/// has no top-level END to replace.
+pub fn loop_and_mark(p: &mut Prog, rng: &mut Rng, passes: i64) -> bool {
+    let bump = |v: &str| St::Let(v.to_string(), E::Bin(Box::new(E::V(v.to_string())), "+", Box::new(E::N(1))), false);
+    let ei = match p.lines.iter().position(|l| matches!(l.sts.last(), Some(St::End))) {
+        Some(i) => i,
+        None => return false,
+    };
+    for l in p.lines.iter_mut() {
+        if rng.chance(1, 2) {
+            l.sts.insert(0, bump(MARKER));
+        }
+    }
+    let head = 900_000usize;
+    let l = &mut p.lines[ei];
+    l.sts.pop();
+    l.sts.push(bump(MARKER));
+    l.sts.push(bump(PASSES));
+    l.sts.push(St::If(
+        E::Bin(Box::new(E::V(PASSES.to_string())), "<", Box::new(E::N(passes))),
+        vec![St::Goto(head)],
+        Some(vec![St::End]),
+    ));
+    p.lines.insert(0, Line { label: head, sts: vec![bump(MARKER), St::Restore(None)] });
+    p.number(10, 10);
+    true
 }
 
 impl Prog {
@@ -788,6 +851,8 @@ pub struct ModelRun {
     pub kinds: Vec<&'static str>,
     pub vars: BTreeMap<String, i64>,
     pub max_depth: usize,
+    /// (open FOR frames, open GOSUB frames) each time the marker variable Z9 was assigned
+    pub shape_log: Vec<(u32, u32)>,
 }
 
 enum Frame {
@@ -819,6 +884,7 @@ struct M<'a> {
     whiles: Vec<(Pos, Pos)>,
     kinds: std::collections::BTreeSet<&'static str>,
     max_depth: usize,
+    shape_log: Vec<(u32, u32)>,
 }
 
 enum Flow {
@@ -1011,6 +1077,10 @@ impl<'a> M<'a> {
                 self.kinds.insert("LET");
                 let x = self.eval(e, &none, 0, ln)?;
                 self.vars.insert(v.clone(), x);
+                if v == MARKER {
+                    let f = self.stack.iter().filter(|f| matches!(f, Frame::For { .. })).count() as u32;
+                    self.shape_log.push((f, self.stack.len() as u32 - f));
+                }
             }
             St::Goto(l) => {
                 self.kinds.insert("GOTO");
@@ -1202,6 +1272,7 @@ pub fn model_run(p: &Prog, max_steps: u64) -> ModelRun {
         whiles: vec![],
         kinds: Default::default(),
         max_depth: 0,
+        shape_log: vec![],
     };
     for (li, l) in p.lines.iter().enumerate() {
         for s in &l.sts {
@@ -1267,5 +1338,6 @@ pub fn model_run(p: &Prog, max_steps: u64) -> ModelRun {
         kinds: m.kinds.into_iter().collect(),
         vars: m.vars,
         max_depth: m.max_depth,
+        shape_log: m.shape_log,
     }
 }
